@@ -16,6 +16,13 @@ FRAGMENTS = ALPHABET + ["let", "true", "false", "null", "case", "into", "func", 
                         ">=", "<=", "&&", "||", "//", "**", "~", ";", "^", "\r\n", "#!", "\u00b2", "\u0663", "\u4e2d", "\u00a0", "\u2028", "\u3000", "\u00df", "\u0394",
                         "\u00d7", "\u02b0", "\u0085", "\u200b", "\ufeff", "\ufffd", "\U0010ffff", "\ud7ff", "\ue000", "\x0b", "\x0c", "\x00", "\x7f"]
 
+import sys as _sys
+if hasattr(_sys, "set_int_max_str_digits"):
+    _sys.set_int_max_str_digits(0)
+# 2^1024 - 2^970: the smallest value str::parse::<f64> maps to infinity (midpoint above f64::MAX, ties to even), and its predecessor
+_F64_T = str((1 << 1024) - (1 << 970))
+_F64_T1 = str((1 << 1024) - (1 << 970) - 1)
+
 CORPUS = ["", " ", "\t ", "from a | select {b, c}", "x = true.a", "case(", "let x = 5", "1..2", "a ..b", " .. ", "a .. b", "..", "...", "....", "1.5e3", "0x1F", "0b_101",
           "0o777", "0b2", "0x", "0xg", "0x_", "0x1234567890abcdef", "0b" + "1" * 33, "2days", "2days(", "1_0years ", "0days", "9223372036854775808days", "@2020-01-01",
           "@12:30:15.5Z", "@2020-01-01T10:00+05:30 ", "@2020-01-01T10:00-0800", "@2020-01-01T", "@20222-01-01", "@12:30:15.1234567", "@1", "@12", "@12:3", "@a", "@",
@@ -27,8 +34,7 @@ CORPUS = ["", " ", "\t ", "from a | select {b, c}", "x = true.a", "case(", "let 
           "let\n", "let\t", "let>", "let}", "let]", "let{", "let.", "let..", "into.a", "internal(", "import:", "enum=", "type\\", "module#", "prql$", "func@", "truea", "true(",
           "false.", "null:", "\U0001F600", "a\U0001F600", "\"\U0001F600\" \u00e9", "#\U0001F600\n\u00e9", "\u00e9\u00e9 ..\u00e9", "\u4e2d\u6587 = 1", "x\u00b2", "\u00b2", "\u0663",
           "1.7976931348623158e308", "1.7976931348623159e308", "17976931348623158" + "0" * 292, "17976931348623159" + "0" * 292, "1" + "0" * 400, "0e999", "0.0e999999999999999999",
-          "1e309 a", "a\n1e999", "[1e400]", "1_0e3_0", "179769313486231580793728971405303415079934132710037826936173778980444968292764750946649017977587207096330286416692887910946555547851940402630657488671505820681908902000708383676273854845817711531764475730270069855571366959622842914819860834936475292719074168444365510704342711559699508093042880177904174497791.99",
-          "179769313486231580793728971405303415079934132710037826936173778980444968292764750946649017977587207096330286416692887910946555547851940402630657488671505820681908902000708383676273854845817711531764475730270069855571366959622842914819860834936475292719074168444365510704342711559699508093042880177904174497792",
+          "1e309 a", "a\n1e999", "[1e400]", "1_0e3_0", _F64_T1 + ".99", _F64_T,
           "9223372036854775807days", "9_223_372_036_854_775_808years", "99999999999999999999hours(",
           "a\u0663", "$\u0663", "a\u00a0b", "a\u2028b", "\u3000", "a\x0bb", "a\x0c", "-1", "a-b", "a - b", "[1, 2]", "{a=1}", "(a)", "a:b", "a.b.c", "f x y", "s\"{a} b\" f'c'",
           "@{a}", "@ 1", "1 .. 2", "1.. 2", "1 ..2", "a..", "..a", "a\t..\tb", "a \n b", " a", "a ", " a ", "\ta\t", "a\\b", "\\", "a\n\\", "~", "~=", "?", "&", "&&", "||", "|", "&&&",
